@@ -258,6 +258,26 @@ def sqlite_columns(tier):
             stale = [c for c in ins[t].cols if c not in tgt and c not in sets]
             if nothing or stale:
                 r.fail(f'O2/{t}/upsert-stale', f'restore upsert of {t} leaves column(s) {stale or "all"} at their current value')
+    # the snapshot helpers take the raw group id (MDK tables) and / or the MlsCodec-encoded one (OpenMLS tables): each must receive the id of its own kind
+    # (both are byte slices, so swapping them type-checks and silently selects no rows)
+    sbody = re.sub(r'//[^\n]*', '', S.fn_body(S.source('lib.rs'), 'snapshot_group_state'))
+    lib = re.sub(r'//[^\n]*', '', S.source('lib.rs'))
+    for m in re.finditer(r'Self::(snapshot_\w+)\s*\(', sbody):
+        j = m.end(); d = 1; k = j
+        while k < len(sbody) and d:
+            d += sbody[k] == '('
+            d -= sbody[k] == ')'
+            k += 1
+        cargs = [re.sub(r'\s+', '', a).lstrip('&') for a in S.split_top(sbody[j:k - 1]) if a.strip()]
+        sig = re.search(r'fn ' + m.group(1) + r'\s*\(([^)]*)\)', lib, re.S)
+        if not sig:
+            continue
+        pnames = [re.sub(r'\s+', '', x).split(':')[0] for x in S.split_top(sig.group(1)) if x.strip()]
+        n += 1
+        for pn, ca in zip(pnames, cargs):
+            if pn in ('group_id_bytes', 'mls_group_id_bytes') and ca != pn:
+                r.fail(f'O2/{m.group(1)}/wrong-kind-of-group-id', f'snapshot_group_state calls {m.group(1)} with `{ca}` for its parameter `{pn}`: the raw group id and the MlsCodec-encoded id are '
+                       'different keys, so the snapshot of that table matches no row and a rollback then empties it')
     # what the restore writes into the live tables is what the snapshot row carries: every bound parameter is the stored row itself or a value decoded from it
     # (a key column bound to a function argument instead re-keys the restored row)
     body = re.sub(r'//[^\n]*', '', S.fn_body(S.source('lib.rs'), 'restore_group_from_snapshot'))
